@@ -109,4 +109,52 @@ def All.new (n : Nat) (dur : Int) (pn : Nat) (pdur : Int) (psize : Nat) (maxHeal
 
 /-- feed a history of delivered callbacks -/
 def All.feed (a : All) (emits : List Emit) : All := emits.foldl All.onEmit a
+
+/-- the three fallback rolling sums at `now` (success, reject, failure) -/
+def FbStats.sums (f : FbStats) (now : Int) : FbStats × List Int :=
+  let (a, va) := f.successes.sumAt now
+  let (b, vb) := f.rejects.sumAt now
+  let (c, vc) := f.failures.sumAt now
+  ({ successes := a, rejects := b, failures := c }, [va, vb, vc])
+
+/-- the integer count fields of one hystrix event-stream record (metriceventstream.collectCommandMetrics) -/
+structure StreamCounts where
+  requestCount : Int
+  errorCount : Int
+  rollS : Int
+  rollRej : Int
+  rollF : Int
+  rollSC : Int
+  rollT : Int
+  rollBad : Int          -- bad requests + interrupts (the dashboard has no interrupt field)
+  cntS : Int
+  cntRej : Int
+  cntF : Int
+  cntSC : Int
+  cntT : Int
+  cntBad : Int
+  fbRollS : Int
+  fbRollRej : Int
+  fbRollF : Int
+  fbCntS : Int
+  fbCntRej : Int
+  fbCntF : Int
+  isOpen : Bool
+  deriving Repr, DecidableEq
+
+/-- `collectCommandMetrics` on the collectors `a` at clock reading `now`: every rolling sum is read at the same `now`
+    (`LegitimateAttemptsAt` = successes + failures + timeouts, `ErrorsAt` = failures + timeouts) -/
+def All.streamCounts (a : All) (now : Int) (isOpen : Bool) : StreamCounts :=
+  let sums := (a.run.sums now).2
+  let tot := a.run.totals
+  let fsums := (a.fb.sums now).2
+  let g (l : List Int) (i : Nat) : Int := l.getD i 0
+  { requestCount := g sums 0 + g sums 2 + g sums 4 + g sums 6,
+    errorCount := g sums 2 + g sums 4,
+    rollS := g sums 0, rollRej := g sums 1, rollF := g sums 2, rollSC := g sums 3, rollT := g sums 4,
+    rollBad := g sums 5 + g sums 6,
+    cntS := g tot 0, cntRej := g tot 1, cntF := g tot 2, cntSC := g tot 3, cntT := g tot 4, cntBad := g tot 5 + g tot 6,
+    fbRollS := g fsums 0, fbRollRej := g fsums 1, fbRollF := g fsums 2,
+    fbCntS := a.fb.successes.total, fbCntRej := a.fb.rejects.total, fbCntF := a.fb.failures.total,
+    isOpen := isOpen }
 end CM.Cons
